@@ -387,6 +387,9 @@ TrulyParked(h) == pc[h] = "parked" /\ snap[h] = epoch
 \* nothing can happen any more
 Terminal == Idle /\ \A h \in Handlers : pc[h] = "done" \/ TrulyParked(h)
 
+\* sanity: Terminal characterises exactly the states without a successor
+TerminalIffStuck == Terminal <=> ~ENABLED Next
+
 \* (a) whoever waits for compilation returns once no compilation is running or pending
 NoHang == Idle => \A h \in Handlers : ~TrulyParked(h)
 
